@@ -109,6 +109,62 @@ def make_evse(kind: dict, station: str = "S"):
     raise ValueError(t)
 
 
+def _as_number(x, how):
+    """the same number in another of the types a caller may hand to a constructor"""
+    x = num(x)
+    if how == "float":
+        return float(x)
+    if how == "np":
+        return np.float64(x)
+    if how == "npint" and float(x) == int(x):
+        return np.int64(int(x))
+    return x
+
+
+def make_evse_as(kind: dict, station: str = "S"):
+    """`make_evse` for kinds carrying the optional keys
+      "as"  (finite): the type of the `allowable_rates` ARGUMENT (documented: an iterable) — "list" | "gen" | "map" |
+            "iter" (one-shot iterators) | "tuple" | "set" | "ndarray" | "range" (the rates must be an integer
+            arithmetic progression) | "dictkeys";
+      "num" (cont / deadband): the numeric type of the bounds — "float" | "np" (numpy.float64) | "npint".
+    A kind without these keys builds exactly what `make_evse` builds."""
+    t = kind["t"]
+    how = kind.get("num")
+    if t == "cont" and how:
+        return EVSE(station, max_rate=_as_number(kind["max"], how), min_rate=_as_number(kind["min"], how))
+    if t == "deadband" and how:
+        return DeadbandEVSE(station, deadband_end=_as_number(kind["db"], how), max_rate=_as_number(kind["max"], how))
+    form = kind.get("as")
+    if t != "finite" or not form or form == "list":
+        return make_evse(kind, station)
+    rates = [num(r) for r in kind["rates"]]
+    if form == "gen":
+        arg = (r for r in rates)
+    elif form == "map":
+        arg = map(lambda r: r, rates)
+    elif form == "iter":
+        arg = iter(rates)
+    elif form == "tuple":
+        arg = tuple(rates)
+    elif form == "set":
+        arg = set(rates)
+    elif form == "dictkeys":
+        arg = dict.fromkeys(rates).keys()
+    elif form == "ndarray":
+        arg = np.array(rates) if rates else np.array([], dtype=float)
+    elif form == "range":
+        if any(float(r) != int(r) for r in rates):
+            raise ValueError(f"rates {rates} are not a range")
+        rates = [int(r) for r in rates]
+        step = (rates[1] - rates[0]) if len(rates) > 1 else 1
+        arg = range(rates[0], rates[-1] + (1 if step > 0 else -1), step) if rates else range(0)
+        if list(arg) != rates:
+            raise ValueError(f"rates {rates} are not a range")
+    else:
+        raise ValueError(form)
+    return FiniteRatesEVSE(station, arg)
+
+
 def kind_wire(kind: dict) -> dict:
     t = kind["t"]
     if t == "cont":
